@@ -423,7 +423,10 @@ func FromEngine(sch Schema, rs []sql.Row) ([]Row, error) {
 
 // foldCi: utf8mb4_0900_ai_ci restricted to the generator's alphabet for ci columns (ASCII letters and digits):
 // equality is equality after case folding; digits sort before letters.
-func foldCi(s string) string { return strings.ToUpper(s) }
+func foldCi(s string) string {
+	// ... and accent-insensitive: the two accented letters of the binary pool (é, è) compare equal to e
+	return strings.NewReplacer("É", "E", "È", "E").Replace(strings.ToUpper(s))
+}
 
 func (s Schema) cmpVal(c int, a, b Val) int {
 	switch {
